@@ -70,6 +70,10 @@ func walkAttributes(elem *etree.Element) {
 			pushDown(elem, elem, space, putDecl(space), attr.Value)
 			elem.Attr = append(elem.Attr[:i], elem.Attr[i+1:]...)
 			continue
+		} else if isDecl && renderedAbove(elem, putDecl(space), attr.Value) {
+			// an output ancestor already rendered this binding: not repeated
+			elem.Attr = append(elem.Attr[:i], elem.Attr[i+1:]...)
+			continue
 		}
 		i++
 	}
@@ -112,6 +116,19 @@ func walkAttributes(elem *etree.Element) {
 		}
 		i++
 	}
+}
+
+// has the nearest ancestor that renders a declaration of this name rendered
+// this value? Ancestors have been walked already, so the declarations they
+// still carry are the ones they render. With no such ancestor only the empty
+// default namespace is in effect.
+func renderedAbove(elem *etree.Element, key, value string) bool {
+	for p := elem.Parent(); p != nil; p = p.Parent() {
+		if attr := p.SelectAttr(key); attr != nil {
+			return attr.Value == value
+		}
+	}
+	return key == "xmlns" && value == ""
 }
 
 // namespace URI that an attribute prefix is bound to at this element.
